@@ -90,7 +90,7 @@ def run(prop, tier, replay=None):
     big = tier != "quick"
     with open(cfg, "w") as fh:
         fh.write("SPECIFICATION Spec\nCONSTANTS\n  Prices = {%s}\n  Mults = {1, 2}\n  Positions <- %s\n  Spreads = {0, 2}\n"
-                 "  Comms = {\"zero\", \"fix\", \"unit\", \"tier\", \"prop\"}\n  AmtLo <- %s\n  AmtHi = %d\n"
+                 "  Comms = {\"zero\", \"fix\", \"unit\", \"tier\", \"prop\", \"sell\", \"buy\"}\n  AmtLo <- %s\n  AmtHi = %d\n"
                  "INVARIANT Inv_ShippedInClasses\nINVARIANT Inv_MaxQOk\nCHECK_DEADLOCK FALSE\n"
                  % ("3, 7, 10, 37, 50, 100" if big else "3, 7, 10, 50", "PosDefBig" if big else "PosDef", "LoBig" if big else "LoQuick", 400 if big else 60))
     try:
